@@ -14,8 +14,23 @@ RULE = ("tame and app sessions with modal pushes from input, refresh, show_all, 
 def generate(rnd, tier):
     n = 600 if tier == "quick" else 7000
     sid = SidCounter()
-    cases = [gen_case(rnd, "tame", sid) for _ in range(n)] + [gen_case(rnd, "app", sid) for _ in range(n // 2)]
+    cases = [gen_case(rnd, "tame", sid) for _ in range(n)] + [gen_case(rnd, "app", sid) for _ in range(n // 2)] + [gen_parent_redraw(rnd) for _ in range(n // 3)]
     return [with_cc(c) for c in cases]
+
+
+def gen_parent_redraw(rnd):
+    """a screen shows a modal dialog from input(); the dialog asks for a redraw of the screen beneath it, then closes; possibly nested twice; the quit key inside"""
+    depth = rnd.randint(1, 2)
+    screens = [dict(id=0, name="S0", title=None, text="root", height=30, input_required=True, no_separator=False, skip_check=False,
+                    scripts={"input": [{"acts": [["push_modal", 1, None]], "ret": "PROCESSED"}] + [{"ret": rnd.choice(["DISCARDED", "PROCESSED", "q"])} for _ in range(3)]})]
+    for d in range(1, depth + 1):
+        acts = [["redraw_sig", rnd.randrange(0, d)]] if rnd.random() < 0.7 else []
+        nxt = [["push_modal", d + 1, None]] if d < depth else []
+        screens.append(dict(id=d, name="S%d" % d, title=None, text="modal %d" % d, height=30, input_required=True, no_separator=False, skip_check=False,
+                            scripts={"input": [{"acts": acts + nxt, "ret": rnd.choice(["CLOSE", "CLOSE", "q", "DISCARDED"])} for _ in range(4)]}))
+    return with_cc(dict(op="machine", mode="tame", width=80, screens=screens, handlers=[], init=[["schedule", 0, None]],
+                        stdin=[rnd.choice(["x", "c", "q", ""]) for _ in range(rnd.randint(2, 10))], quit_cb=None,
+                        quit_screen=rnd.choice([None, None, depth]) , exc_handler=False, run_empty=False, deliver_at=[]))
 
 
 def corpus():
@@ -32,9 +47,26 @@ def monitor(case, obs):
         if ctx.get("reader") or "stack" not in ctx: continue
         st = ctx["stack"]
         if ev[0] == "api" and ev[1] == "force_quit": return None          # after a force-quit nothing is processed; C09 covers it
-        if ev[0] == "api" and ev[1] == "push_modal": calls.append(list(st)); continue
+        if ev[0] == "api" and ev[1] == "push_modal": calls.append({"st": list(st), "sched": 0, "redraw_for": set(), "i": i}); continue
+        if ev[0] == "api" and ev[1] == "schedule":
+            for c_ in calls: c_["sched"] += 1
+        if ev[0] == "api" and ev[1] == "redraw_sig" and calls:
+            # a redraw queued for a screen beneath the modal one (it belongs to the blocked outer loop)
+            name = x.specs[ev[2]]["name"]
+            c_ = calls[-1]
+            if any(e[0] == name for e in c_["st"]) and not any(e[0] == name for e in st[len(c_["st"]):]): c_["redraw_for"].add(ev[2])
         if ev[0] == "api<" and ev[1] == "push_modal" and calls:
-            at = calls.pop()
+            rec = calls.pop(); at = rec["st"]
+            if len(st) > len(at) + rec["sched"]:
+                return "push_screen_modal returned although the modal screen (or what replaced it) is still on the stack: %r (at the call: %r)" % (st, at)
+            for scr in rec["redraw_for"]:
+                # nothing that was queued for the caller's side has been lost: once the run is quiescent the screen was refreshed after the return
+                name = x.specs[scr]["name"]
+                later = [e for e, c in x.x[i:] if e[0] == "cb" and e[1] == scr and e[2] == "refresh"]
+                end_stack = next((c["stack"] for e, c in reversed(x.x) if "stack" in c), [])
+                stopped = any(e[0] == "api" and e[1] in ("force_quit", "raise_exit", "raise_err", "close_direct", "close_sig", "replace", "push", "push_modal") for e, c in x.x[i:])
+                if not later and obs["outcome"][0] == "blocked" and end_stack and end_stack[-1][0] == name and not stopped and not calls:
+                    return "a redraw was queued for %s while a modal screen covered it; after push_screen_modal returned it was never refreshed although it is the top screen and nothing else happened" % name
             # schedule() inserts at the bottom: compare as "the old entries are still there in the same order, beneath"
             sub = [e for e in st]
             j = 0
@@ -43,7 +75,7 @@ def monitor(case, obs):
             if j != len(at): return "push_screen_modal returned with the stack %r; at the call it was %r" % (st, at)
             continue
         if calls and ev[0] == "cb":
-            n = len(calls[-1])
+            n = len(calls[-1]["st"])
             # entries scheduled (inserted at the bottom) during the modal session shift positions: count them
             name = x.specs[ev[1]]["name"]
             if ev[2] == "closed":
@@ -55,9 +87,16 @@ def monitor(case, obs):
 
 def classify(case, obs, verdict, model):
     fl = (model or {}).get("flags", [])
+    if "K6" in fl: return "K6"
     if "K1" in fl: return "K1"
     if "K2" in fl: return "K2"
     return None
+
+
+def run_witness(wit):
+    if "handlers" not in wit: return None
+    case = with_cc(dict(op="machine", mode="tame", width=80, **wit))
+    return monitor(case, run_impl(case)) is not None
 
 
 def nontrivial(case, obs):
